@@ -1,5 +1,6 @@
 import FxVerif.Proofs.C13
 import FxVerif.Model.C07
+import FxVerif.Proofs.C07Gov
 /-!
 # C07 — block processing never halts: the crosschain `EndBlocker` half
 
@@ -26,10 +27,11 @@ theorem refresh_code_facts : RefreshCodeOk := by decide
 end-blocker is one the model accounts for -/
 theorem sites_covered : endBlockerSites.all isAccounted = true := by decide
 
-/-- the three sites that can fire are exactly the ones with an explicit outcome in the model -/
+/-- the sites that can fire are exactly the ones with an explicit outcome in the model -/
 theorem modelled_sites :
     (accounted.filter (fun a => a.2 == Treatment.modelled)).map (·.1.what) =
-      ["sdk.MustAccAddressFromBech32", "Uint64", "QuoUint64"] := by decide
+      ["sdk.MustAccAddressFromBech32", "Uint64", "QuoUint64",
+       "panic(fmt.Errorf(\"covert power diff to dec err, powerDiff: %"] := by decide
 
 /-- **the crosschain end-blocker completes in every state** (reachable or not) whose total oracle power fits `uint64`:
 any pending oracle sets / batches / bridge calls, any confirms, any ages past the signed window, any cursors -/
@@ -58,6 +60,74 @@ theorem endBlock_keeps_powerFits (s : State) (h : Nat) (s' : State) (he : endBlo
     PowerFits s' := by
   have hr := endBlock_rel slashing_code_facts s h s' he
   exact powerFits_of_recs s s' h hr.core.p hr.recs hf
+
+/-! ## gov half: the proposal-tally path
+
+`x/gov/abci.go: EndBlocker` returns whatever `Keeper.Tally` returns; an error or a panic there halts the chain.  The tally
+arithmetic is modelled in `Model/C07Gov.lean`; its decision tail is the program `Gen.C07.tallyTail` REGENERATED from
+`x/gov/keeper/tally.go` on every run.  (The queue / deposit half of the gov end-blocker is `gov_endblock_*` in Props/C15.) -/
+
+open FxVerif.Model.C07Gov FxVerif.Proofs.C07Gov in
+/-- obligation over the regenerated tail of `Tally`: zero bonded tokens is tested before the turnout division, "everyone
+abstained" (`total − abstain = 0`) is tested before the veto and threshold divisions, in this order -/
+theorem tally_tail_code_facts : tallyTail = FxVerif.Proofs.C07Gov.expectedTail := by decide
+
+/-- obligation over the regenerated inventory of `.Quo(` calls in `Tally`: exactly the five divisions the model has -/
+theorem tally_quo_sites_covered : tallyQuoDivisors = modelledQuoDivisors := by decide
+
+/-- obligation over the regenerated inventory of error-return / panic sites of the gov end-blocker and `Tally` -/
+theorem gov_sites_covered : govSites.all isGovAccounted = true := by decide
+
+open FxVerif.Model.C07Gov FxVerif.Proofs.C07Gov in
+/-- **the tally completes for every combination of votes, delegations, validators and parameters**: any number of voters
+with any valid weighted votes (incl. all-abstain, zero-power voters, dust delegations), any bonded tokens (incl. zero), any
+quorum / veto / threshold values — no `Quo` divides by zero.  Hypotheses are facts of the staking state, not of the votes:
+bonded validators have positive delegator shares (`InOk`), and a validator's voting delegators do not hold more shares
+than the validator has (`DeductionsFit`) -/
+theorem gov_tally_total (i : TallyIn) (hi : InOk i) (hd : DeductionsFit i) : ∃ o, tally i = .ok o :=
+  tally_total_of_tail tally_tail_code_facts i hi hd
+
+open FxVerif.Model.C07Gov FxVerif.Proofs.C07Gov in
+/-- with no voters at all the tally completes whatever the staking state is (not even `InOk` is needed for validators
+that did not vote) -/
+theorem gov_tally_total_no_votes (i : TallyIn) (hv : i.voters = []) (hn : ∀ v ∈ i.vals, v.vote = []) :
+    ∃ o, tally i = .ok o := by
+  have hskip : tallySkipsNonVotingValidators = true := by decide
+  have hfold : ∀ (l : List GVal) (a : Acc), (∀ v ∈ l, v.vote = []) → foldE validatorStep a l = .ok a := by
+    intro l
+    induction l with
+    | nil => intro a _; rfl
+    | cons v vs ih =>
+      intro a h
+      have hv0 : v.vote = [] := h v (by simp)
+      simp only [foldE, validatorStep, hskip, hv0, List.isEmpty_nil, Bool.and_self, if_true]
+      exact ih a (fun x hx => h x (by simp [hx]))
+  obtain ⟨r, hr⟩ := runTail_expected_total i {} 0 (by decide) (by decide)
+  unfold tally
+  rw [hv]
+  simp only [foldE]
+  rw [hfold i.vals _ hn]
+  simp only
+  rw [tally_tail_code_facts]
+  have hr' : runTail { i := i, res := ({ vals := i.vals } : Acc).res, total := ({ vals := i.vals } : Acc).total } expectedTail = .ok r := hr
+  rw [hr']
+  exact ⟨_, rfl⟩
+
+-- non-vacuity (gov): two validators of 100 tokens; both abstain with full weight → quorum reached, fails, nothing burned;
+-- one yes + one abstain → passes
+section
+open FxVerif.Model.C07Gov FxVerif.Proofs.C07Gov
+def oneE : Int := 10 ^ 18
+def vEx (o : Opt) : GVal := { tokens := 100, shares := 100 * oneE, vote := [(o, oneE)] }
+def iEx (a b : Opt) : TallyIn :=
+  { bonded := 200, quorum := 4 * 10 ^ 17, vetoThr := 334 * 10 ^ 15, thr := 5 * 10 ^ 17, burnQ := false, burnV := true,
+    vals := [vEx a, vEx b],
+    voters := [{ opts := [(a, oneE)], dels := [(0, 100 * oneE)] }, { opts := [(b, oneE)], dels := [(1, 100 * oneE)] }] }
+example : (match tally (iEx .abstain .abstain) with | .ok o => some (o.passes, o.burn, o.res.abstain) | .error _ => none) =
+    some (false, false, 200 * oneE) := by decide
+example : (match tally (iEx .yes .abstain) with | .ok o => some (o.passes, o.burn) | .error _ => none) = some (true, false) := by decide
+example : (match tally (iEx .veto .abstain) with | .ok o => some (o.passes, o.burn) | .error _ => none) = some (false, true) := by decide
+end
 
 -- non-vacuity: an aged, unconfirmed bridge call with an online oracle that did not confirm — the end-blocker slashes it
 def pEx : Params := ⟨100, 10, 8 * 10 ^ 17, 2, 10, 100, 10 ^ 17, 2⟩
